@@ -359,6 +359,9 @@ func TestC09(t *testing.T) {
 				}
 				r.Outcome(fmt.Sprintf("%d|%v", pi, rs))
 			}
+			if !r.Quick() {
+				e.MaxExecs = lcThoroughExecsPerProgram // reproducible coverage of the thorough tier (see lc_test.go)
+			}
 			e.Run()
 			r.Count("executions", int64(e.Stats.Execs))
 			r.SetMax("max_points_per_execution", int64(e.Stats.MaxPoints))
